@@ -487,6 +487,37 @@ Plan generate_clean(uint64_t seed, bool thorough) { return generate_with(seed, t
 Plan generate_faulty(uint64_t seed, bool thorough) { return generate_with(seed ^ 0x5151, thorough, true, false); }
 Plan generate_long(uint64_t seed, bool thorough) { return generate_with(seed ^ 0x9a9a, thorough, false, true); }
 
+// Bounded-exhaustive enumeration of short histories on one block: every sequence of `depth` symbols over an alphabet
+// of 8 operations, for 4 configurations. The run index is the sequence.
+Plan generate_enum(uint64_t index, bool thorough) {
+  Plan p;
+  static const int64_t opts[] = {0, 0x4 /*fill*/, 0x8 /*immediate release*/, 0x2 | 0x4 /*multi pool + fill*/};
+  p.set("options", opts[index % 4]);
+  p.set("granularity", 64); p.set("block_size", 65536); p.set("pattern", 0); p.set("null_params", 0); p.set("junk", 0); p.set("shift", 0);
+  p.set("window", 0); p.set("policy", 0); p.set("hugetlb_grant", 0); p.set("fault_class", 0); p.set("fail_ctor", 0); p.set("release_all_at_end", 1);
+  uint64_t seq = index / 4;
+  int depth = thorough ? 6 : 4;
+  for (int d = 0; d < depth; d++) {
+    Op op;
+    switch (seq % 8) {
+      case 0: op.kind = kAlloc; op.a[0] = 1; op.a[1] = 1; break;
+      case 1: op.kind = kAlloc; op.a[0] = 3 * 64; op.a[1] = 1; break;
+      case 2: op.kind = kAlloc; op.a[0] = 131072 - 3 * 64; op.a[1] = 1; break;   // (nearly) the whole first block
+      case 3: op.kind = kRelease; op.a[0] = 0; break;                              // oldest held span
+      case 4: op.kind = kRelease; op.a[0] = 999999; break;                         // some other span
+      case 5: op.kind = kShrink; op.a[0] = 0; op.a[1] = 1; break;                  // shrink to one byte
+      case 6: op.kind = kWriteFn; op.a[0] = 999999; op.a[1] = 1; op.a[2] = 0; break;
+      default: op.kind = kReallocSame; op.a[0] = 0; break;
+    }
+    seq /= 8;
+    p.ops.push_back(op);
+  }
+  Op q; q.kind = kQueryReleased; q.a[0] = 0; p.ops.push_back(q);
+  Op st; st.kind = kStats; p.ops.push_back(st);
+  return p;
+}
+Plan generate_enum_unused(uint64_t seed, bool thorough) { return generate_enum(seed % 4096, thorough); }
+
 void shrink(const Plan& p, std::vector<Plan>& out) {
   static const char* const zero_keys[] = {"junk", "shift", "policy", "window", "hugetlb_grant", "pattern", "block_size", "granularity", "null_params", "fail_ctor"};
   for (const char* k : zero_keys) if (p.get(k)) { Plan q = p; q.set(k, 0); out.push_back(q); }
@@ -514,7 +545,9 @@ const sim::Scenario kClean = {"C09", "histories", "asan", 60000, 1200000, genera
 const sim::Scenario kFaulty = {"C09", "histories-faults", "asan", 60000, 1200000, generate_faulty, execute, op_name, shrink, nullptr};
 const sim::Scenario kPlainPlace = {"C09", "placement-plain", "plain", 100000, 2000000, generate_clean, execute, op_name, shrink, nullptr};
 const sim::Scenario kLong = {"C09", "long-histories", "plain", 0, 32, generate_long, execute, op_name, shrink, nullptr};
-sim::Registrar r1(kClean), r2(kFaulty), r3(kPlainPlace), r4(kLong);
+// 4 * 8^4 = 16384 (quick) / 4 * 8^6 = 1048576 (thorough) runs cover the enumeration completely
+const sim::Scenario kEnum = {"C09", "enumerated-short-histories", "asan", 16384, 1048576, generate_enum_unused, execute, op_name, shrink, nullptr, generate_enum};
+sim::Registrar r1(kClean), r2(kFaulty), r3(kPlainPlace), r4(kLong), r5(kEnum);
 
 const char* const kAssumptions[] = {
   "Double release, release/query of interior pointers, use of a span after reset() and concurrent use are caller errors and are not generated.",
@@ -525,7 +558,7 @@ const char* const kReal[] = {"asmjit JitAllocator, VirtMem (alloc, dual mapping,
 const char* const kStub[] = {"placement of mappings, mmap/munmap/memfd_create/shm_open/open/ftruncate failure decisions, huge page answers (sysfs file, MAP_HUGETLB), descriptor table", "SimHeap failure decisions and junk fill", nullptr};
 const sim::PropInfo kInfo = {"C09", "exploration",
   "Each run is one seed: allocator configuration (any subset of the 8 option bits, valid and invalid granularity / block size, custom pattern, null params), VM placement window and policy (adjacent ascending/descending, scattered, gaps), huge-page answer, process profile (memfd / shm / tmp fallback, hardened runtime) and a history of 3..400 operations (alloc with sizes from 1 byte to several blocks incl. 0 and >2^31, release, shrink, query of live / foreign / released pointers, write, write(fn)+truncate, rejected writes, statistics, reset soft/hard, destroy+recreate, release+realloc of the same size), plus 10^4..10^5-operation histories in the thorough tier. "
-  "Fault-free and fault-injecting runs are separate scenarios. Oracle: interval model fed by SimVM map/unmap events (alignment, size, disjointness, rx/rw aliasing via stamps, statistics, fill pattern over every byte outside live spans, retention policy, leak-freedom). Non-trivial = at least one span or block existed; distinct = distinct event-log hashes.",
+  "Scenario 'enumerated-short-histories' is bounded-exhaustive instead of sampled: every sequence of 4 (quick) / 6 (thorough) operations over an alphabet of 8 (allocate 1 granule / 3 granules / nearly a whole block, release oldest / another, shrink to one byte, write+truncate, release+reallocate) x 4 option sets. Fault-free and fault-injecting runs are separate scenarios. Oracle: interval model fed by SimVM map/unmap events (alignment, size, disjointness, rx/rw aliasing via stamps, statistics, fill pattern over every byte outside live spans, retention policy, leak-freedom). Non-trivial = at least one span or block existed; distinct = distinct event-log hashes.",
   kAssumptions, kReal, kStub};
 sim::PropInfoRegistrar reginfo(kInfo);
 
